@@ -420,6 +420,35 @@ def entry_points(run):
             continue
         for m in re.finditer(r"^[ \t]*#[ \t]*define[ \t]+(\w+)[ \t]+\(?\s*-?\d+", ht, re.M):
             probs.append("%s publishes a numeric constant (%s): a registry id is only meaningful in one build configuration" % (hp, m.group(1)))
+    # a feature switch decides whether a NAME exists, nothing else: SNOOPY_CONF_<KIND>_ENABLED_<name> is tested in the registries only
+    # (code elsewhere that depends on one makes what a name runs depend on another feature's switch)
+    mentions = []
+    for f in sorted(glob.glob(os.path.join(run.tree, "src", "**", "*.[ch]"), recursive=True)):
+        if f in own:
+            continue
+        t = strip_comments(open(f, encoding="utf-8", errors="replace").read())
+        gs = sorted(set(FEATURE_RE.findall(t)))
+        if gs:
+            rel = os.path.relpath(f, run.tree)
+            mentions.append((rel, gs))
+            probs.append("%s tests the feature switch(es) %s outside the registries: the code a name runs there depends on a feature's enable switch" % (rel, ", ".join(gs)[:200]))
+    entry_points.mentions = mentions
+    # no switch misspelt on the testing side: every SNOOPY_*ENABLED* macro a preprocessor conditional tests is one configure can define
+    # (config.h.in template) or one the sources derive (#define)
+    tested, defined = {}, set()
+    try:
+        defined |= set(re.findall(r"^#\s*undef\s+(SNOOPY_\w+)", run.src("config.h.in"), re.M))
+    except OSError:
+        pass
+    for f in sorted(glob.glob(os.path.join(run.tree, "src", "**", "*.[ch]"), recursive=True)):
+        t = strip_comments(open(f, encoding="utf-8", errors="replace").read())
+        defined |= set(re.findall(r"^[ \t]*#[ \t]*define[ \t]+(SNOOPY_\w+)", t, re.M))
+        for line in re.findall(r"^[ \t]*#[ \t]*(?:ifdef|ifndef|if|elif)\b[^\n]*", t, re.M):
+            for mac in re.findall(r"SNOOPY_\w*ENABLED\w*", line):
+                tested.setdefault(mac, os.path.relpath(f, run.tree))
+    for mac, where in sorted(tested.items()):
+        if mac not in defined:
+            probs.append("%s tests %s, a macro that neither configure (config.h.in) nor any #define provides: a misspelt switch" % (where, mac))
     # who uses the registries' API: (file, function) pairs outside the three registry files
     callers = []
     for f in sorted(glob.glob(os.path.join(run.tree, "src", "**", "*.c"), recursive=True)):
@@ -616,7 +645,7 @@ def tr_registry(run):
              "Definition options : opt_registry :=\n  {| o_rows := %s;\n     o_sentinel := %s;\n     o_lex_ok := %s;\n     o_lookup_ok := %s |}.\n"
              % (coq_optrows(opts["rows"]), coq_str(opts["sentinel"] or ""), "true" if opts["lex_ok"] else "false", "true" if opts["lookup_ok"] else "false"))
     run.write_gen("Gen_Registry.v", text)
-    js = {"sentinel": sentinel, "lookup_ok": lookup_ok, "entries_ok": entries_ok, "dispatch_ok": dispatch_ok, "callers": callers, "configure_features": feats, "configure_generic": generic, "confighin": hin,
+    js = {"sentinel": sentinel, "lookup_ok": lookup_ok, "entries_ok": entries_ok, "dispatch_ok": dispatch_ok, "callers": callers, "guard_mentions": getattr(entry_points, "mentions", []), "configure_features": feats, "configure_generic": generic, "confighin": hin,
           "registries": {k: {"kind": regs[k]["kind"], "names": regs[k]["names"], "ptrs": regs[k]["ptrs"], "lex_ok": regs[k]["lex_ok"]} for k in regs},
           "options": opts, "notes": notes}
     json.dump(js, open(os.path.join(run.scratch, "consts_registry.json"), "w"), indent=1)
